@@ -22,7 +22,8 @@ RULE = ("Complete enumeration of all histories up to length 3 (quick) / 4 (thoro
 ASSUMPTIONS = ["in-memory transport counts every bulk_write call and byte", "device simulator for the connected state"]
 
 FS = {b"/f": {"content": b"hello", "mode": 0o100644, "mtime": 3}}
-DEV = {"services": {b"shell:ls": [b"ab", b"cd"], b"exec:id": [b"uid=0"], b"root:": [b"ok"]}, "fs": FS, "dirs": {b"/d": [(1, 2, 3, b"a")]}}
+DEV = {"services": {b"shell:ls": [b"ab", b"cd"], b"exec:id": [b"uid=0"], b"root:": [b"ok"]}, "fs": FS, "dirs": {b"/d": [(1, 2, 3, b"a")]},
+       "ignore_open": (b"shell:zz",)}      # the OPEN of `shell zz` is never answered: the call times out, the connection (and `available`) stays
 
 OPS = {
     "exec_out": {"op": "exec_out", "cmd": "id", "decode": False},
@@ -30,6 +31,7 @@ OPS = {
     "shell": {"op": "shell", "cmd": "ls"},
     "streaming_shell": {"op": "streaming_shell", "cmd": "ls", "decode": False},
     "reboot": {"op": "reboot"},
+    "shell-unanswered": {"op": "shell", "cmd": "zz", "read_timeout_s": 0.1, "transport_timeout_s": 0.1},
     "list": {"op": "list", "path": "/d"},
     "stat": {"op": "stat", "path": "/f"},
     "pull": {"op": "pull", "path": "/f", "dest": "file"},
@@ -97,6 +99,8 @@ def run_history(hist, api):
                 out.core.cfg["close_raises_once"] = True      # the transport's own close() raises (once)
         else:
             op = dict(OPS[letter])
+        # an idle link that reports "nothing yet" as empty reads (USB-like) makes the library's own deadline fire (AdbTimeoutError) rather than the transport's
+        out.core.flavour = "empty" if letter == "shell-unanswered" else "raises"
         return op, w0
 
     def post(i, letter, op, w0, res):
@@ -147,6 +151,10 @@ def run_history(hist, api):
                     return Violation("empty-path-wrong-outcome", "step %d %s: expected DevicePathInvalidError, got %r" % (i, letter, res))
                 if w1 != w0:
                     return Violation("bytes-written-for-empty-path", "step %d %s wrote to the transport" % (i, letter))
+            elif letter == "shell-unanswered":
+                # a timed-out operation is not a close(): the documented outcome is the timeout error, and `available` (compared below) stays True
+                if res.get("exc") not in ("AdbTimeoutError", "TcpTimeoutException"):
+                    return Violation("unanswered-open-wrong-outcome", "step %d %s: expected a timeout error, got %r" % (i, letter, res))
             else:
                 if res.get("exc") == "AdbConnectionError":
                     return Violation("connected-op-refused", "step %d %s on a connected device raised AdbConnectionError" % (i, letter))
